@@ -249,3 +249,12 @@ class TierHistory:
         else:
             res = None
         self._add(res)
+
+
+def run_histories(rng, n, steps=12, hostile=False, observer=None):
+    """Drive n seeded histories; whatever monitors are attached to the real classes judge every call made on objects
+    that carry a history (objects that were mutated in place, or produced by earlier operations)."""
+    for h in range(n):
+        H = TierHistory(rng, h % 2 == 0, observer, hostile=hostile)
+        for _ in range(steps):
+            H.step()
